@@ -8,6 +8,7 @@ From Coq Require Import List Arith Bool PeanoNat.
 Import ListNotations.
 Require Import Fggs.Model.Semiring Fggs.Model.SCC Fggs.Model.SumProduct Fggs.Model.EReal Fggs.Model.Trop.
 Require Import Fggs.Proofs.Presentation Fggs.Proofs.Presentation_cor.
+Require Import Fggs.Model.Kleene Fggs.Proofs.Kleene_proofs Fggs.Proofs.Presentation_lfp Fggs.Proofs.Presentation_grad.
 Require Fggs.Proofs.SemiringLaws.
 
 Local Notation bR := SemiringLaws.bool_ring. Local Notation bO := SemiringLaws.bool_ordered. Local Notation bS := SemiringLaws.bool_star.
@@ -18,3 +19,15 @@ Local Notation tR := SemiringLaws.trop_ring. Local Notation tO := SemiringLaws.t
 Definition bool_presentation := @Zk_presentation bool bool_ops bR.
 Definition real_presentation := @Zk_presentation ereal ereal_ops eR.
 Definition trop_presentation := @Zk_presentation trop trop_ops tR.
+
+(** least fixed points / enclosures of recursive grammars (Proofs/Presentation_lfp.v) *)
+Definition bool_lfp_presentation := @lfp_presentation bool bool_ops bR.
+Definition real_lfp_presentation := @lfp_presentation ereal ereal_ops eR.
+Definition trop_lfp_presentation := @lfp_presentation trop trop_ops tR.
+Definition bool_lfp_value_presentation := @lfp_value_presentation bool bool_ops bR bO.
+Definition real_lfp_value_presentation := @lfp_value_presentation ereal ereal_ops eR eO.
+Definition trop_lfp_value_presentation := @lfp_value_presentation trop trop_ops tR tO.
+Definition real_enclosure_run_presentation :=
+  @enclosure_run_presentation ereal ereal_ops eR eO rd_real infl_real eleb rd_real_le eleb_sound.
+(** gradients over [0, inf] (Proofs/Presentation_grad.v) *)
+Definition real_grad_presentation := @grad_presentation ereal ereal_ops eR.
